@@ -62,7 +62,7 @@ Proof. exact machine_simple. Qed.
 Print Assumptions C08_machine_simple.
 
 Theorem C08_parse_agrees_core_partial : forall Sg D,
-  alookup "true" D = Some (ITerm TTrue) -> alookup "false" D = Some (ITerm TFalse) ->
+  SmtParser.alookup "true" D = Some (ITerm TTrue) -> SmtParser.alookup "false" D = Some (ITerm TFalse) ->
   forall x, core Sg D x ->
   forall s i s' rest k, inv D s -> toks s = (flatten x ++ rest)%list -> elab x s = ROk i s' ->
     get_expr (cost x + k) [] s = ROk (Some i) s' /\ toks s' = rest /\ inv D s' /\
